@@ -12,7 +12,7 @@ LEVEL = 'model_checking'
 RULE = ('every history (operation sequence) of depth d over the event alphabet {asserta/assertz of p(a) p(b) p(X) '
         'p(f(Y)) q(a,b) flag; retract of p(a) p(X) p(f(X)) q(X,Y) flag nosuch(X), retract(p(X)) run to exhaustion / '
         'abandoned after the 1st / after the 2nd answer; retractall of p(a) p(_) flag nosuch(_); patterns with a repeated variable q(X,X) and partially bound q(X,a) over q/2 facts; clear}, from 4 initial '
-        'stores, in 3 dress-ups (Python API; compiled clauses; compiled clauses receiving the goal in a variable bound '
+        'stores, in 3 dress-ups (Python API - for histories with a clear also with the Atom objects of the caller created once and held across the clear; compiled clauses; compiled clauses receiving the goal in a variable bound '
         'at run time). Each history is replayed on a fresh engine with the reference model (ordered lists, copy on '
         'assert) stepped alongside; after EVERY step the answers of the operation and the contents of p/1 q/2 flag/0 '
         'nosuch/1 read back with all-variable queries must equal the model\'s. states = distinct canonical store '
@@ -42,6 +42,30 @@ CORE8 = [0, 2, 3, 8, 9, 10, 11, 16]
 INITIAL = [[], [pa], [pa, pb, pa], [F('q', a, b), F('q', a, a), F('q', b, a), pa]]
 KEYS = [('p', 1), ('q', 2), ('flag', 0), ('nosuch', 1)]
 DRESS = ['api', 'compiled', 'goal-in-variable']
+# a 4th dress-up, run for the histories that contain clear: the Python API with the Atom objects
+# of the caller created once, when the engine is new, and HELD for the whole history (a caller
+# keeps its `p = yp.atom('p')` around; after clear() the engine no longer knows these objects)
+HELD = 'api-held-atoms'
+CLEAR = None
+
+
+class HeldAtoms:
+    def __init__(self, yp):
+        self._yp = yp
+        self._atoms = {}
+
+    def atom(self, name):
+        a = self._atoms.get(name)
+        if a is None:
+            a = self._atoms[name] = self._yp.atom(name)
+        return a
+
+    def __getattr__(self, name):
+        return getattr(self._yp, name)
+
+
+CLEAR_INDEX = EVENTS.index(('clear',))
+ATOM_NAMES = ['p', 'q', 'flag', 'nosuch', 'a', 'b']
 
 
 def bounds(tier):
@@ -88,10 +112,12 @@ def do_event_impl(yp, ev, i, dress, pytext):
     """-> list of observations (one per answer)"""
     if ev[0] == 'clear':
         yp.clear()
-        if dress != 'api':
+        if dress not in ('api', HELD):
             yp.load_script_from_string(pytext, fn=impl.SCRIPT_FN)
         return ['cleared']
     vm = {}
+    if dress == HELD:
+        dress = 'api'
     if dress == 'api':
         if ev[0] == 'assert':
             t = ev[2]
@@ -174,7 +200,11 @@ def readback_ref(ref):
 def run_history(dress, init, hist, pytext):
     """-> ('ok', states, steps, changed) | ('violation', sig, detail)"""
     yp = impl.YP()
-    if dress != 'api':
+    if dress == HELD:
+        yp = HeldAtoms(yp)
+        for nm in ATOM_NAMES:
+            yp.atom(nm)
+    elif dress != 'api':
         yp.load_script_from_string(pytext, fn=impl.SCRIPT_FN)
     ref = Ref()
     for t in init:
@@ -233,6 +263,8 @@ def plan(tier):
     else:
         specs = [('full', 4, DRESS), ('core', 5, DRESS), ('core8', 6, ['api']), ('qfocus', 5, DRESS), ('all', 3, DRESS)]
     for alpha, depth, dresses in specs:
+        if alpha in ('full', 'core'):
+            dresses = list(dresses) + [HELD]
         for dress in dresses:
             for ii in range(len(INITIAL)):
                 if alpha == 'core8' and ii >= 2:
@@ -256,7 +288,7 @@ def run_shard(spec):
     alpha, depth, dress, ii, k, n = spec
     acc = Acc()
     pytext = None
-    if dress != 'api':
+    if dress not in ('api', HELD):
         try:
             pytext = compile_cached(show_program(script_for(dress)))
         except Exception as e:  # noqa: BLE001
@@ -267,6 +299,8 @@ def run_shard(spec):
     al = alphabet(alpha)
     for idx, hist in enumerate(itertools.product(al, repeat=depth)):
         if idx % n != k:
+            continue
+        if dress == HELD and CLEAR_INDEX not in hist[:-1]:
             continue
         acc.n['evaluations'] += 1
         acc.n['validated'] += 1
@@ -289,7 +323,7 @@ def run_shard(spec):
 
 def replay(case):
     dress = case['dress']
-    pytext = None if dress == 'api' else impl.compile_text(show_program(script_for(dress)))
+    pytext = None if dress in ('api', HELD) else impl.compile_text(show_program(script_for(dress)))
     r = run_history(dress, INITIAL[case['init']], case['hist'], pytext)
     if r[0] == 'violation':
         return [(r[1], r[2])]
